@@ -27,7 +27,7 @@ func VerifyEpochTail(tickets types.TicketsExtrinsic) *types.ErrorCode {
 
 	// m' < Y => |E_T| <= K
 	if mPrime < types.TimeSlot(types.SlotSubmissionEnd) {
-		if len(tickets) > types.ValidatorsCount {
+		if len(tickets) > types.MaxTicketsPerBlock {
 			err := SafroleErrorCode.UnexpectedTicket
 			return &err
 		}
